@@ -4,6 +4,7 @@ import (
 	"crypto"
 	"errors"
 	"fmt"
+	"github.com/go-git/go-git/v6/internal/simhook"
 	"hash"
 	"io"
 	"sync/atomic"
@@ -347,6 +348,7 @@ func (s *syncedReader) sleep() {
 	read := s.read.Load()
 	written := s.written.Load()
 	if read >= written {
+		simhook.Yield("syncedReader.sleep")
 		s.blocked.Store(1)
 		<-s.news
 	}
